@@ -985,6 +985,10 @@ async def _run_handler(c, trigger):
                 if ev["tt"]:
                     cur["now"] += dt.timedelta(milliseconds=750)    # the task wakes up after the instant it was set for
                 r = await dec.handle_dispatch(data)
+                if r is not False and hasattr(dec, "dispatch_accepted"):
+                    # what FunctionDecoratorManager.dispatch does once every handler has passed (since the fix of C07-F2 the
+                    # hold-off stamp is taken there, not inside handle_dispatch)
+                    dec.dispatch_accepted(data)
                 out.append("0" if r is False else "1")
         c.impl = "".join(out)
     except Exception as e:
@@ -1283,12 +1287,11 @@ def make_line(c):
     cfg = [f["sa"] is not None, f["ta"], specs, hold, f["sa_first"], st_us]
     if f.get("dup"):
         # documented: "only a single @state_active / @time_active decorator can be used per function" - the function is refused
-        # as a trigger function (it stays callable).  legacy model: Legacy.runFn with the decorator counts; new model: the two
-        # handlers in a row, i.e. the merged guard (see merged_guards)
+        # as a trigger function (it stays callable).  Models: Legacy.runFn / New.runFn with the decorator counts (the new subsystem
+        # refuses it too since the fix of C07-F6; `_merged` = what it did before: the two handlers in a row, see merged_guards)
         p["_oracle"] = "".join("1" if e["kind"] == "direct" else "0" for e in oev)
         p["_merged"] = oracle_runs(f_specs, f["hold"], dt_of(st_us), oev, f["sa"] is not None, f["ta"])
-        if p["legacy"]:
-            cfg += [2 if f["dup"]["kind"] == "sa" else 1, 2 if f["dup"]["kind"] == "ta" else 1]
+        cfg += [2 if f["dup"]["kind"] == "sa" else 1, 2 if f["dup"]["kind"] == "ta" else 1]
     else:
         p["_oracle"] = oracle_runs(f_specs, f["hold"], dt_of(st_us), oev, f["sa"] is not None, f["ta"])
     head = ["legacy", "cur"] if p["legacy"] else ["new", "cur"]
@@ -1443,11 +1446,11 @@ def _py_run(p, flags, legacy):
     return "".join(out)
 
 
-# deviations of the model's Flags.  Only `stampEarly` (finding C07-F2) is still in the code; the others were repaired by the
-# fix commits e0254f9 (perArg), 07af69d (identityFalse), 4801d95 (staleLocals): a case they explain is a REGRESSION and gets
-# a signature that matches no known finding.
-OPEN_FLAGS = ["stampEarly"]
-FIXED_FLAGS = ["perArg", "identityFalse", "staleLocals"]
+# deviations of the model's Flags.  All of them were repaired by fix commits - e0254f9 (perArg), 07af69d (identityFalse),
+# 4801d95 (staleLocals), and the fix of C07-F2 (stampEarly: last_trig_time is now stamped by dispatch_accepted after all handlers
+# have passed): a case they explain is a REGRESSION and gets a signature that matches no known finding.
+OPEN_FLAGS = []
+FIXED_FLAGS = ["stampEarly", "perArg", "identityFalse", "staleLocals"]
 
 
 def classify(c, reason):
@@ -1457,8 +1460,8 @@ def classify(c, reason):
     legacy = p["kind"] == "ha" and p["legacy"]
     sub = "legacy" if legacy else "new"
     if p["kind"] == "ha" and p["scen"]["funcs"][p["fi"]].get("dup"):
-        # finding C07-F6: the new subsystem does not refuse the repeated decorator; both guards then gate the function
-        return sub + (":repeated-guard-accepted" if c.impl == p.get("_merged") and not legacy else ":repeated-guard:unexplained")
+        # fixed finding C07-F6: the new subsystem used to install both guards instead of refusing the function - a regression
+        return sub + (":regressed:repeated-guard-accepted" if c.impl == p.get("_merged") and not legacy else ":repeated-guard:unexplained")
     # legacy: `groupHold` = hold_off kept per trigger task (open finding C07-F5)
     names = ["groupHold", "staleLocals"] if legacy else OPEN_FLAGS + FIXED_FLAGS
     for k in range(1, len(names) + 1):
